@@ -431,13 +431,21 @@ impl<'a> FieldParser<'a> {
                 // octet size is known by size field. Parse elements
                 // item by item as a vector.
                 self.check_size(&span, &quote!(#size_field));
-                let parse_element =
-                    self.parse_array_element(&format_ident!("head"), width, type_id, decl);
+                // When the array is padded, `span` is itself named `head`
+                // (the padding window): the elements are split off under
+                // another name, otherwise `head = tail` would make the
+                // loop below parse the padding instead of the elements.
+                let elements = if padding_size.is_some() {
+                    format_ident!("elements")
+                } else {
+                    format_ident!("head")
+                };
+                let parse_element = self.parse_array_element(&elements, width, type_id, decl);
                 self.tokens.extend(quote! {
-                    let (mut head, tail) = #span.split_at(#size_field);
+                    let (mut #elements, tail) = #span.split_at(#size_field);
                     #span = tail;
                     let mut #id = Vec::new();
-                    while !head.is_empty() {
+                    while !#elements.is_empty() {
                         #id.push(#parse_element?);
                     }
                 });
